@@ -27,7 +27,7 @@ static std::vector<Op> buildAlphabet(const std::string& name, Limits& L, const s
         L.maxFrames = 3; L.maxPoints = 3; L.maxChans = 2; L.noColumnsOnGaps = true; L.emptyFrameOnlyWhenBlank = true; L.documentedDevsOnly = true; L.noDuplicateDeclarations = true; L.noRateEditWithData = true;
         for (auto n : {"A", "B", "A "}) A.push_back(opPoint(n, L));
         for (auto n : {"a", "b"}) A.push_back(opAnalog(n, L));
-        for (float r : {0.f, 50.f, 100.f, 23.976f}) A.push_back(opRate("POINT", r, L));
+        for (float r : {0.f, 50.f, 100.f, 23.976f, 100.005f}) A.push_back(opRate("POINT", r, L));   // 100 / 100.005: nearly equal rates, 5e-3 Hz apart
         for (float r : {0.f, 100.f, 200.f, 15.f * 23.976f}) A.push_back(opRate("ANALOG", r, L));
         A.push_back(opParam("NEWG", "X", pv("i3"), "d0", false, L));
         A.push_back(opParam("POINT", "X", pv("s2"), "d1", true, L));
@@ -38,8 +38,8 @@ static std::vector<Op> buildAlphabet(const std::string& name, Limits& L, const s
         A.push_back(opFrame("addpoints", "0", 1, L)); A.push_back(opFrame("addanalogs", "0", 1, L));
         for (auto w : {"both", "pt", "an"}) A.push_back(opFrameFree(w, 0, L));
         A.push_back(opFrameEmpty(L));
-        for (auto d : {"ok", "ok2", "fewer", "more", "none", "nocol", "dup", "dup2"}) A.push_back(opColPoint(d, 0, L));
-        for (auto d : {"ok", "ok2", "fewer", "more", "none", "nocol", "sub_fewer", "sub_more", "dup", "dup2"}) A.push_back(opColAnalog(d, 0, L));
+        for (auto d : {"ok", "ok2", "fewer", "more", "none", "nocol", "dup", "dup2", "ragged"}) A.push_back(opColPoint(d, 0, L));
+        for (auto d : {"ok", "ok2", "fewer", "more", "none", "nocol", "sub_fewer", "sub_more", "dup", "dup2", "ragged"}) A.push_back(opColAnalog(d, 0, L));
         A.push_back(opParamBad("NEWB", true, false)); A.push_back(opParamBad("POINT", false, true)); A.push_back(opParamBad("NEWB", false, false));
         A.push_back(opLock("NOPE", true)); A.push_back(opLock("NOPE", false));
         A.push_back(opReload());
@@ -71,8 +71,8 @@ static std::vector<Op> buildAlphabet(const std::string& name, Limits& L, const s
             std::vector<std::string> dv = {"pt_extra", "pt_missing", "pt_renamed", "ch_extra", "ch_missing", "sub_extra", "an_none"};
             for (size_t i = 0; i < dv.size(); ++i) for (size_t j = i + 1; j < dv.size(); ++j) A.push_back(opFrame(dv[i] + "+" + dv[j], "app", 0, L));
         }
-        for (auto d : {"ok", "ok2", "fewer", "more", "none", "nocol", "dup", "dup2"}) A.push_back(opColPoint(d, 0, L));
-        for (auto d : {"ok", "ok2", "fewer", "more", "none", "nocol", "sub_fewer", "sub_more", "dup", "dup2"}) A.push_back(opColAnalog(d, 0, L));
+        for (auto d : {"ok", "ok2", "fewer", "more", "none", "nocol", "dup", "dup2", "ragged"}) A.push_back(opColPoint(d, 0, L));
+        for (auto d : {"ok", "ok2", "fewer", "more", "none", "nocol", "sub_fewer", "sub_more", "dup", "dup2", "ragged"}) A.push_back(opColAnalog(d, 0, L));
         A.push_back(opReload());
     } else if (name == "params") {  // C09: add / replace / lock / unlock over existing and new groups
         L.maxFrames = 1; L.maxPoints = 1; L.maxChans = 1; L.maxGroups = 5; L.maxParamsPerGroup = 12;
@@ -86,7 +86,7 @@ static std::vector<Op> buildAlphabet(const std::string& name, Limits& L, const s
         A.push_back(opPoint("A", L)); A.push_back(opRate("POINT", 100.f)); A.push_back(opFrame("ok", "app", 0, L));
     } else if (name == "lookup") {  // C11: containers of every size 0..N
         L.maxFrames = thorough ? 3 : 2; L.maxPoints = thorough ? 3 : 2; L.maxChans = 2; L.maxGroups = 5; L.noColumnsOnGaps = true;
-        for (auto n : {"A", "B", "A ", "b", "  "}) A.push_back(opPoint(n, L));
+        for (auto n : {"A", "B", "A ", "b", "  ", "T\t"}) A.push_back(opPoint(n, L));
         for (auto n : {"a", "a ", "B", " "}) A.push_back(opAnalog(n, L));
         A.push_back(opRate("POINT", 100.f)); A.push_back(opRate("ANALOG", 200.f)); A.push_back(opRate("ANALOG", 100.f));
         A.push_back(opFrame("ok", "app", 0, L)); A.push_back(opFrame("ok", "n+1", 2, L));
